@@ -116,6 +116,14 @@ CHECKS.update({
    ref="DESIGN.md §4 C13"),
 })
 
+CHECKS.update({
+ "C14": dict(
+   technique="property-based testing (proptest): reference acceptance rule and transitive naming, reference renamer for the rewritten references and synthesized attributes, apply/undo inverse law, differential agreement between the jar and the mappings implementation, reference derivation for translated nests",
+   text="Generated-input exploration: jars of generated classes that reference each other, nests tables of all three kinds with chains, missing enclosing classes, absent classes, fitting and non-fitting enclosing methods, derived/custom/invalid inner names (built directly and through Nests::read), and two-namespace mappings over the same classes are given to nest_jar (with and without renaming), apply_nests_to_mappings, undo_nests_to_mappings and remap_nests; results are compared with a reference written from the statement and the two implementations of the naming are cross-checked. Holds on everything explored.",
+   note="Trusted: harness reference naming/acceptance, reference renamer, mapping model. All classes of the mappings carry a target name; nests are acyclic; target-side class names after apply are not asserted.",
+   ref="DESIGN.md §4 C14"),
+})
+
 NOT_YET = {
 }
 
